@@ -55,6 +55,8 @@ func anyType(t string) cty.Type {
 		return cty.Set(cty.String)
 	case "map":
 		return cty.Map(cty.String)
+	case "maplist":
+		return cty.Map(cty.List(cty.String))
 	case "object":
 		return cty.Object(map[string]cty.Type{"k": cty.String, "n": cty.Number})
 	case "tuple":
